@@ -142,7 +142,7 @@ def compdb(repo=None, work=None):
     return units
 
 
-def all_units(repo=None, work=None, with_alternates=True, with_informational=False):
+def all_units(repo=None, work=None, with_alternates=True, with_informational=True):
     repo = repo or REPO
     if repo != REPO and os.environ.get("PLINT_SCRATCH_RECONFIGURE") != "1":
         # scratch copy of the sources (checker self-test): same build flags,
@@ -257,7 +257,7 @@ def extract(name, path, flags, repo=None, work=None, extra_flags=()):
         return json.load(f)
 
 
-def load_units(names=None, repo=None, work=None, with_informational=False, extra_flags=None):
+def load_units(names=None, repo=None, work=None, with_informational=True, extra_flags=None):
     """Extract the requested units (default: all) in parallel."""
     allu = all_units(repo, work, with_informational=with_informational)
     if names is None:
